@@ -135,7 +135,7 @@ class Worker:
             when = f"other:{ep[1]}"
         else:
             when = "early"
-        return {"tok": k, "m": m, "loc": loc, "via": via or "", "when": when}
+        return {"tok": k, "m": m, "loc": loc, "via": via or "", "when": when, "stack": [f"{r}:{ln}" for r, ln, _k in st[:16]]}
 
     @staticmethod
     def early_expr(st):
@@ -384,6 +384,79 @@ class Worker:
         h = BeeNxp.load_from_config(cfg, [self.scratch]).headers[0]
         return [self._o("sw_key", h._sw_key, sup), self._o("counter", h._prdb.counter, sup), self._o("kib_key", h._kib.kib_key, sup),
                 self._o("kib_iv", h._kib.kib_iv, sup)]
+
+    # ---- ONE call that serves SEVERAL artifacts: observations are tagged `a<n>.field` (n = artifact of the call)
+    @staticmethod
+    def _aes(key, data, iv=None):
+        from cryptography.hazmat.primitives.ciphers import Cipher, algorithms, modes
+        dec = Cipher(algorithms.AES(key), modes.ECB() if iv is None else modes.CBC(iv)).decryptor()
+        return dec.update(data) + dec.finalize()
+
+    def b_bee_multi(self, spec, sup):
+        """BeeNxp.load_from_config for engine0 / engine1 / both; the KIB and the PRDB counter are also decoded from the exported
+        region headers with the user key (independent of the object graph)."""
+        from spsdk.image.bee import BeeNxp
+        engines = []
+        for e in range(spec["n_engines"]):
+            uk = sup.get(f"a{e}.sw_key")
+            engines.append({"bee_cfg": {"user_key": ("0x" + uk.hex()) if uk is not None else "",
+                                        "protected_region": [{"start_address": 0x60001000 + 0x1000 * e, "length": 0x1000, "protected_level": 0}]}})
+        cfg = {"family": spec["family"], "input_binary": "in.bin", "engine_selection": spec["selection"], "base_address": 0x60001000,
+               "bee_engine": engines}
+        bee = BeeNxp.load_from_config(cfg, [self.scratch])
+        exported = bee.export_headers()
+        out = []
+        for h, hdr in enumerate(bee.headers):
+            if hdr is None:
+                continue
+            cfg_idx = h if h < len(engines) else 0  # engine1 alone with one configured engine uses the first entry
+            supv = sup.get(f"a{cfg_idx}.sw_key")
+            out += [(f"a{h}.sw_key", hdr._sw_key, supv), (f"a{h}.counter", hdr._prdb.counter, None),
+                    (f"a{h}.kib_key", hdr._kib.kib_key, None), (f"a{h}.kib_iv", hdr._kib.kib_iv, None)]
+            raw = exported[h]
+            key = supv if supv is not None else hdr._sw_key
+            kib = self._aes(key, raw[0:32])
+            prdb = self._aes(kib[0:16], raw[0x80:0x180], kib[16:32])
+            from spsdk.image.bee import BeeProtectRegionBlock
+            out += [(f"a{h}.x_kib_key", kib[0:16], None), (f"a{h}.x_kib_iv", kib[16:32], None),
+                    (f"a{h}.x_counter", BeeProtectRegionBlock.parse(prdb).counter, None)]
+        return out
+
+    def b_iee_multi(self, spec, sup):
+        """IeeNxp.load_from_config with 1..4 key blobs; keys also read from the plain key blob table"""
+        from spsdk.utils.crypto.iee import IeeNxp
+        blobs = []
+        for i, b in enumerate(spec["blobs"]):
+            k1, k2 = sup.get(f"a{i}.key1"), sup.get(f"a{i}.key2")
+            blobs.append({"aes_mode": b["mode"], "key_size": b["key_size"], "key1": ("0x" + k1.hex()) if k1 is not None else "",
+                          "key2": ("0x" + k2.hex()) if k2 is not None else "", "start_address": 0x30001000 + 0x10000 * i,
+                          "end_address": 0x30008000 + 0x10000 * i})
+        cfg = {"family": spec["family"], "keyblob_address": 0x30000000, "output_folder": self.scratch, "key_blobs": blobs}
+        iee = IeeNxp.load_from_config(cfg, self.scratch, [self.scratch])
+        table = iee.get_key_blobs()
+        out = []
+        stride = len(iee[0].plain_data())
+        for i in range(len(blobs)):
+            kb = iee[i]
+            rec = table[i * stride:(i + 1) * stride]
+            out += [(f"a{i}.key1", kb.key1, sup.get(f"a{i}.key1")), (f"a{i}.key2", kb.key2, sup.get(f"a{i}.key2")),
+                    (f"a{i}.x_key1", rec[16:16 + len(kb.key1)], sup.get(f"a{i}.key1")), (f"a{i}.x_key2", rec[48:48 + len(kb.key2)], sup.get(f"a{i}.key2"))]
+        return out
+
+    def b_otfad_multi(self, spec, sup):
+        """OtfadNxp with 1..4 key blobs (keys / counters / fillers self-chosen or given); read back from the plain key blob table"""
+        from spsdk.utils.crypto.otfad import KeyBlob, OtfadNxp
+        blobs = [KeyBlob(start_addr=0x30001000 + 0x1000 * i, end_addr=0x30001FFF + 0x1000 * i, key=sup.get(f"a{i}.key"),
+                         counter_iv=sup.get(f"a{i}.counter_iv"), zero_fill=sup.get(f"a{i}.filler")) for i in range(spec["n"])]
+        otfad = OtfadNxp(family=spec["family"], kek=bytes.fromhex(spec["kek"]), table_address=0x30000000, key_blobs=blobs)
+        table = otfad.get_key_blobs()
+        out = []
+        for i in range(spec["n"]):
+            rec = table[64 * i:64 * (i + 1)]
+            out += [(f"a{i}.key", otfad[i].key, sup.get(f"a{i}.key")), (f"a{i}.counter_iv", otfad[i].ctr_init_vector, sup.get(f"a{i}.counter_iv")),
+                    (f"a{i}.x_key", rec[0:16], sup.get(f"a{i}.key")), (f"a{i}.x_ctr", rec[16:24], sup.get(f"a{i}.counter_iv")),
+                    (f"a{i}.filler", rec[32:36], sup.get(f"a{i}.filler"))]
+        return out
 
     def b_hab_nonce(self, spec, sup):
         from spsdk.image.hab.segments import CsfHabSegment
@@ -767,8 +840,8 @@ def gen_build(rng, keys):
     """One independent construction.  `keys` = a few user keys reused across builds (same KEK / HMAC key for several
     images is the normal situation and makes values *derived from user input* collide)."""
     t = rng.choices(["sb20", "sb21", "sb21_cfg", "advparams", "mbi", "mbi_cfg", "otfad", "otfad_cfg", "iee", "iee_cfg", "bee_prdb", "bee_kib",
-                     "bee_hdr", "bee_cfg", "hab_nonce", "hab_dek", "bootimg_rt", "filler", "sb1", "fill_rand", "hab_cfg", "mbi_cli"],
-                    [12, 12, 5, 6, 10, 4, 8, 2, 6, 3, 3, 3, 4, 3, 4, 4, 5, 3, 3, 2, 2 if HAB_DATA else 0, 2])[0]
+                     "bee_hdr", "bee_cfg", "hab_nonce", "hab_dek", "bootimg_rt", "filler", "sb1", "fill_rand", "hab_cfg", "mbi_cli", "bee_multi", "iee_multi", "otfad_multi"],
+                    [12, 12, 5, 6, 10, 4, 8, 2, 6, 3, 3, 3, 4, 3, 4, 4, 5, 3, 3, 2, 2 if HAB_DATA else 0, 2, 8, 5, 4])[0]
     spec = {"t": t, "sup": {}}
     sizes = {}
     if t in ("sb20", "sb21"):
@@ -824,6 +897,34 @@ def gen_build(rng, keys):
     elif t == "bee_cfg":
         spec["family"] = "mimxrt1050"
         sizes = {"sw_key": 16}
+    elif t == "bee_multi":
+        spec["family"] = "mimxrt1050"
+        spec["selection"] = rng.choice(["engine0", "engine1", "both", "both", "both"])
+        spec["n_engines"] = 2 if spec["selection"] == "both" else rng.choice([1, 2])
+        same = rhex(rng, 16) if rng.random() < 0.5 else None  # SPSDK's own example uses one user key for both engines
+        for e in range(spec["n_engines"]):
+            if rng.random() < 0.8:
+                spec["sup"][f"a{e}.sw_key"] = same or rhex(rng, 16)
+    elif t == "iee_multi":
+        spec["family"] = "mimxrt1176"
+        spec["blobs"] = []
+        for i in range(rng.randint(1, 4)):
+            mode = rng.choice(["AesXTS", "AesCTRWAddress", "AesCTRWOAddress", "AesCTRkeystream"])
+            ks = rng.choice(["CTR128XTS256", "CTR256XTS512"])
+            spec["blobs"].append({"mode": mode, "key_size": ks})
+            k1 = 16 if ks == "CTR128XTS256" else 32
+            k2 = 16 if (ks == "CTR128XTS256" or mode != "AesXTS") else 32
+            for f, n in (("key1", k1), ("key2", k2)):
+                if rng.random() < 0.25:
+                    spec["sup"][f"a{i}.{f}"] = rhex(rng, n)
+    elif t == "otfad_multi":
+        spec["family"] = "mimxrt1176"
+        spec["kek"] = rng.choice(keys)[:32]
+        spec["n"] = rng.randint(1, 4)
+        for i in range(spec["n"]):
+            for f, n in (("key", 16), ("counter_iv", 8), ("filler", 4)):
+                if rng.random() < 0.2:
+                    spec["sup"][f"a{i}.{f}"] = rhex(rng, n)
     elif t == "hab_nonce":
         spec["len"] = rng.choice([0, 64, 0xFFFF, 0x10000, 0x12345])
     elif t == "hab_dek":
@@ -936,6 +1037,13 @@ def site_index(tab, loc, via, early):
 KNOWN = {}
 
 
+def sub_of(field):
+    """`a<n>.name` = artifact n of a call that serves several artifacts"""
+    if field[:1] == "a" and "." in field and field[1:field.index(".")].isdigit():
+        return int(field[1:field.index(".")])
+    return 0
+
+
 def check_history(ck, s, drv, tab, hist, res, seen_global, hid, hits):
     """Oracle + correspondence for one executed history."""
     inp = {"history": hist}
@@ -951,28 +1059,33 @@ def check_history(ck, s, drv, tab, hist, res, seen_global, hid, hits):
         for o in b["obs"]:
             if o["sup"] is not None:
                 if not o["f"].startswith("d_"):
-                    user_vals.setdefault(o["sup"], (bi, spec["t"], o["f"]))
+                    user_vals.setdefault(o["sup"], ((bi, sub_of(o["f"])), spec["t"], o["f"]))
                 s.expect(o["v"] == o["sup"], inp, "a user-supplied key / nonce / IV (or the one carried by parsed data) is not used verbatim",
                          {"build": bi, "type": spec["t"], "field": o["f"], "value": o["v"]}, o["sup"])
             else:
                 if o["v"] is None or len(o["v"]) < 8:
                     s.expect(False, inp, "a self-chosen key / nonce / IV is missing from the artifact", {"build": bi, "type": spec["t"], "field": o["f"], "value": o["v"]})
                     continue
-                chosen.append((bi, spec["t"], o["f"], o["v"], o))
+                chosen.append(((bi, sub_of(o["f"])), spec["t"], o["f"], o["v"], o))
     # oracle: no value shared by two artifacts (exact bytes; also prefix of one another: x_pad is a 4-byte view)
     byval = {}
-    for bi, t, f, v, o in chosen:
+    for art, t, f, v, o in chosen:
+        bi = art[0]
         src = user_vals.get(v)
-        if src is not None and src[0] != bi:
+        if src is not None and src[0] != art:
             s.expect(False, inp, "a value the user supplied for one artifact only ends up in another artifact for which nothing was supplied",
-                     {"supplied_for": {"build": src[0], "type": src[1], "field": src[2]}, "found_in": {"build": bi, "type": t, "field": f,
-                      "reuses_builder_of": hist[bi].get("reuse")}, "value": v}, "a fresh value")
-        for (bj, tj, fj) in byval.get(v, []):
-            if bj != bi:
-                s.expect(False, inp, "two independently built artifacts share a value SPSDK chose itself",
-                         {"a": {"build": bj, "type": tj, "field": fj}, "b": {"build": bi, "type": t, "field": f, "reuses_builder_of": hist[bi].get("reuse")}, "value": v},
+                     {"supplied_for": {"build": src[0][0], "artifact_of_the_call": src[0][1], "type": src[1], "field": src[2]},
+                      "found_in": {"build": bi, "artifact_of_the_call": art[1], "type": t, "field": f, "reuses_builder_of": hist[bi].get("reuse")}, "value": v},
+                     "a fresh value")
+        for (artj, tj, fj) in byval.get(v, []):
+            if artj != art:
+                what = ("two artifacts produced by ONE call (e.g. the region headers of both BEE engines, two key blobs) share a value SPSDK chose itself"
+                        if artj[0] == bi else "two independently built artifacts share a value SPSDK chose itself")
+                s.expect(False, inp, what,
+                         {"a": {"build": artj[0], "artifact_of_the_call": artj[1], "type": tj, "field": fj},
+                          "b": {"build": bi, "artifact_of_the_call": art[1], "type": t, "field": f, "reuses_builder_of": hist[bi].get("reuse")}, "value": v},
                          "distinct values", finding=KNOWN.get((t, f)))
-        byval.setdefault(v, []).append((bi, t, f))
+        byval.setdefault(v, []).append((art, t, f))
     for v, users in byval.items():
         prev = seen_global.get(v)
         if prev is not None and prev[0] != hid:
@@ -984,28 +1097,32 @@ def check_history(ck, s, drv, tab, hist, res, seen_global, hid, hits):
     labels = {}
     nd = 0
     for bi, b in enumerate(builds):
-        seen_tok, items, sites = set(), [], []
-        for o in b["obs"]:
-            if o["sup"] is not None or o.get("tok") is None:
-                if o["sup"] is None and b["err"] is None:
-                    nd += 1  # opaque self-chosen value (constant or derived): byte oracle only
-                continue
-            k = o["tok"]
-            if k in seen_tok:
-                continue
-            seen_tok.add(k)
-            early = o["when"] != "own"
-            idx = site_index(tab, o["loc"], o["via"], early)
-            if idx is None:
-                unknown = unknown or f"{o['loc']} via '{o['via']}' ({'early' if early else 'per call'})"
-                continue
-            hits[idx] = hits.get(idx, 0) + 1
-            lab = labels.setdefault(k, len(labels))
-            flag = "c" if o["when"] == "own" else ("e" if o["when"] == "early" else "x")
-            items.append(f"{idx}:{lab}:{flag}")
-            sites.append(str(idx))
-        real_parts.append(",".join(items) if items else "_")
-        req_parts.append(",".join(sites) if sites else "_")
+        subs = sorted({sub_of(o["f"]) for o in b["obs"]}) or [0]
+        for sub in subs:  # every artifact of a call is a build of the model
+            seen_tok, items, sites = set(), [], []
+            for o in b["obs"]:
+                if sub_of(o["f"]) != sub:
+                    continue
+                if o["sup"] is not None or o.get("tok") is None:
+                    if o["sup"] is None and b["err"] is None:
+                        nd += 1  # opaque self-chosen value (constant or derived): byte oracle only
+                    continue
+                k = o["tok"]
+                if k in seen_tok:
+                    continue
+                seen_tok.add(k)
+                early = o["when"] != "own"
+                idx = site_index(tab, o["loc"], o["via"], early)
+                if idx is None:
+                    unknown = unknown or f"{o['loc']} via '{o['via']}' ({'early' if early else 'per call'})"
+                    continue
+                hits[idx] = hits.get(idx, 0) + 1
+                lab = labels.setdefault(k, len(labels))
+                flag = "c" if o["when"] == "own" else ("e" if o["when"] == "early" else "x")
+                items.append(f"{idx}:{lab}:{flag}")
+                sites.append(str(idx))
+            real_parts.append(",".join(items) if items else "_")
+            req_parts.append(",".join(sites) if sites else "_")
     # (statistics must not depend on the model's table either)
     nontriv = sum(1 for b in builds if any(o["sup"] is None and o.get("v") for o in b["obs"])) >= 2
     s.note(inp, nontrivial=nontriv, cls=f"builds={len(hist)}" if ok_all else "error")
@@ -1015,6 +1132,49 @@ def check_history(ck, s, drv, tab, hist, res, seen_global, hid, hits):
         model = drv.ask("run " + "/".join(req_parts))
         s.compare(inp, "/".join(real_parts), model, "sharing relation / evaluation time observed on the implementation differs from the model's run on the generated site table")
     return nd
+
+
+def parse_loops(line):
+    rows = []
+    try:
+        if line and line not in ("-", "bad-op"):
+            for row in line.split(";"):
+                i, kind, scope, var, draw, loop, inside = row.split("|")
+                rows.append({"i": int(i), "kind": kind, "scope": scope, "var": var, "drawLoc": draw, "loopLoc": loop, "inside": inside == "1"})
+    except (ValueError, AttributeError):
+        return []
+    return rows
+
+
+MULTI = ("bee_multi", "iee_multi")  # builders whose ONE call serves several artifacts through a loop of the implementation
+
+
+def check_loops(ck, s4, drv, loops, hist, res):
+    """several artifacts from one call: the sharing of every drawn value across the artifacts of the call vs `serve` (Model/FreshLoop.lean)
+    with the position (inside / hoisted) of the generated loop row that the draw's call stack goes through"""
+    if s4 is None:
+        return
+    for bi, (spec, b) in enumerate(zip(hist, res["builds"])):
+        if spec["t"] not in MULTI or b["err"] is not None:
+            continue
+        inp = {"history": [spec]}
+        groups = {}  # (loop row or None, innermost draw site) -> {artifact: token}
+        for o in b["obs"]:
+            if o["sup"] is not None or o.get("tok") is None:
+                continue
+            row = next((r for r in loops if r["drawLoc"] in o.get("stack", ())), None)
+            groups.setdefault((None if row is None else row["i"], o["loc"]), {}).setdefault(sub_of(o["f"]), o["tok"])
+        nart = len({sub_of(o["f"]) for o in b["obs"]})
+        s4.note(inp, nontrivial=nart >= 2, cls=f"{spec['t']}/artifacts={nart}")
+        for (ri, loc), per_art in sorted(groups.items(), key=lambda kv: (str(kv[0][0]), kv[0][1])):
+            labs = {}
+            real = ",".join(str(labs.setdefault(per_art[a], len(labs))) for a in sorted(per_art))
+            if ri is None:
+                s4.compare(inp, f"draw at {loc} serves {len(per_art)} artifact(s) of one call: {real}", "no row of Generated.loopUses on its call stack",
+                           "a draw that serves the artifacts of a multi-artifact call is missing from the generated loop table")
+            elif drv is not None:
+                s4.compare((inp, loc), real, drv.ask(f"crun {ri} {len(per_art)}"),
+                           "sharing of a drawn value across the artifacts of one call differs from the model with the generated loop position")
 
 
 MBI_CLS = "Mbi_MixinCtrInitVector"
@@ -1086,7 +1246,7 @@ def check_reuse_model(ck, s2, drv, slots, hist, res):
                    "kept / fresh counter IV of re-used MBI builder objects differs from the object-state model run on the generated path table")
 
 
-def run_histories(ck, s, drv, tab, w, hists, start_id=0, batch=50, s2=None, slots=()):
+def run_histories(ck, s, drv, tab, w, hists, start_id=0, batch=50, s2=None, slots=(), s4=None, loops=()):
     seen_global, hits, opaque = {}, {}, 0
     for i in range(0, len(hists), batch):
         chunk = hists[i:i + batch]
@@ -1095,6 +1255,7 @@ def run_histories(ck, s, drv, tab, w, hists, start_id=0, batch=50, s2=None, slot
         for h, res in zip(chunk, out):
             opaque += check_history(ck, s, drv, tab, h, res, seen_global, res["id"], hits)
             check_reuse_model(ck, s2, drv, slots, h, res)
+            check_loops(ck, s4, drv, loops, h, res)
     return hits, opaque
 
 
@@ -1316,7 +1477,9 @@ def common_setup(ck):
 HIST_RULE = ("random histories of 2..12 independent constructions drawn from {BootImageV20/V21 with default vs explicit SBV2xAdvancedParams, "
              "BootImageV21.load_from_config (+export), SBV2xAdvancedParams, encrypted MBI through constructor (IV absent / None / given), "
              "load_from_config (+export) and the CLI `nxpimage mbi export` (click CliRunner, IV read back from the written image), OTFAD KeyBlob (+filler) and OtfadNxp.load_from_config, IeeKeyBlob / IeeNxp.load_from_config (XTS/CTR, "
-             "128/256), BEE PRDB / KIB / region header / BeeNxp.load_from_config, CsfHabSegment DEK / nonce helpers, complete encrypted HAB container through HabContainer.load_configuration + load_from_config + "
+             "128/256), BEE PRDB / KIB / region header / BeeNxp.load_from_config, multi-artifact calls (BeeNxp.load_from_config for engine0 / engine1 / both with "
+             "the KIB and PRDB counter also decrypted from the exported region headers with the user key; IeeNxp.load_from_config and OtfadNxp with "
+             "1-4 key blobs read back from the plain key blob table; every artifact of a call is an artifact of its own for the oracle), CsfHabSegment DEK / nonce helpers, complete encrypted HAB container through HabContainer.load_configuration + load_from_config + "
              "export (test-data SRK table / certificates), BootImgRT.add_image, "
              "load_hex_string / align_block_fill_random filler, SecureBootV1}; in ~45% of the histories a builder object that already produced an artifact is USED "
              "AGAIN for a second one (MBI: obj.load_from_config(second config) with / without export in between, obj.ctr_init_vector = None, "
@@ -1353,7 +1516,13 @@ def run(ck):
         ck.extra["object_state_table"] = {"rows": len(slots), "respec_direct": [f"{r['cls']}.{r['method']} resets={r['resets']}" for r in slots
                                                                                  if r["role"] == "respec" and r["direct"]],
                                           "kept_for_object_lifetime(lazy)": [f"{r['cls']}.{r['slot']} in {r['method']}" for r in slots if r["role"] == "lazy"]}
-        hits, opaque = run_histories(ck, s, drv, tab, w, hists, s2=s2, slots=slots)
+        s4 = ck.stream("artifacts_of_one_call", "the builds of the same histories whose ONE call serves SEVERAL artifacts through a loop of the implementation "
+                       "(BeeNxp.load_from_config engine0 / engine1 / both with 1-2 configured engines, user key given / empty / the same for both; "
+                       "IeeNxp.load_from_config with 1-4 key blobs): for every drawn value the sharing across the artifacts of the call is compared "
+                       "with `serve` (Model/FreshLoop.lean) for the generated loop row found on the draw's call stack; non-trivial = at least two artifacts")
+        loops = parse_loops(drv.ask("loops")) if drv is not None else []
+        ck.extra["loop_table"] = [f"{r['scope']}.{r['var']} inside={r['inside']}" for r in loops]
+        hits, opaque = run_histories(ck, s, drv, tab, w, hists, s2=s2, slots=slots, s4=s4, loops=loops)
         ck.extra["sites_exercised"] = {t["loc"] + ("<" + t["via"] if t["via"] else ""): hits.get(t["i"], 0) for t in tab
                                        if t["kind"] in ("sb1", "sb2", "mbi", "otfad", "iee", "bee", "hab", "filler")}
         ck.extra["opaque_self_chosen_values"] = opaque
@@ -1367,6 +1536,8 @@ def replay(ck, data):
     drv, tab, scratch = common_setup(ck)
     s = ck.stream("histories", "replay of recorded histories; " + HIST_RULE)
     s2 = ck.stream("reuse_model", "replay: MBI steps of the recorded histories on the object-state model")
+    s4 = ck.stream("artifacts_of_one_call", "replay: multi-artifact calls of the recorded histories on the loop model")
+    loops = parse_loops(drv.ask("loops")) if drv is not None else []
     slots = parse_slots(drv.ask("slots")) if drv is not None else []
     hists, samedirs = [], []
     for c in data.get("cases", []):
@@ -1410,7 +1581,7 @@ def replay(ck, data):
     for group in hists:
         w = WorkerProc(scratch, patch=True, reuse=True)  # fresh process per recorded case
         try:
-            run_histories(ck, s, drv, tab, w, group, s2=s2, slots=slots)
+            run_histories(ck, s, drv, tab, w, group, s2=s2, slots=slots, s4=s4, loops=loops)
         finally:
             w.close()
 
